@@ -279,11 +279,31 @@ def panics_run(tier='quick'):
     res['backend'] = 'gvc inventory (classification table committed in gvc/panic_sites.json)'
     base = json.load(open(os.path.join(VERIF, 'gvc', 'panic_sites.json')))
     sites = P.inventory()
-    new = [s for s in sites if P.key(s) not in base]
+    # a site is identified by (file, kind, text of its line): the same line in another function (extracted helper, renamed
+    # function) is the same site; a site whose line was edited is the same site as long as the number of sites of that kind
+    # in that file does not grow: only an INCREASE is a new site
+    def fkt(k):
+        p_ = k.split('|')
+        return (p_[0], p_[2], '|'.join(p_[3:]))
+    base_fkt = set(fkt(k) for k in base)
+    cur_fkt = set((s['file'], s['kind'], s['text']) for s in sites)
+    unmatched = [s for s in sites if (s['file'], s['kind'], s['text']) not in base_fkt]
+    vanished = collections.Counter((x[0], x[1]) for x in base_fkt if x not in cur_fkt)
+    unm_n = collections.Counter((s['file'], s['kind']) for s in unmatched)
+    new = []
+    edited = []
+    budget = {fk: unm_n[fk] - vanished.get(fk, 0) for fk in unm_n}
+    for s in unmatched:
+        fk = (s['file'], s['kind'])
+        if budget.get(fk, 0) > 0:
+            new.append(s)
+            budget[fk] -= 1
+        else:
+            edited.append(s)
     counts = collections.Counter(base[P.key(s)].split(' ')[0].split(':')[0] for s in sites if P.key(s) in base)
     res['verified'] = len(sites) - len(new)
     res['inventory'] = [dict(total=len(sites), by_class=dict(counts), new_unclassified=[dict(file=s['file'], fn=s['fn'], kind=s['kind'], text=s['text']) for s in new])]
-    res['samples'] = [dict(obligation='panic-site inventory', total=len(sites), by_class=dict(counts))]
+    res['samples'] = [dict(obligation='panic-site inventory', total=len(sites), by_class=dict(counts), edited_or_moved_sites=len(edited))]
     if new:
         res['status'] = 'undecided'
         res['soft_undecided'] = ['new unclassified panic site: %s %s `%s`' % (s['file'], s['fn'], s['text'][:80]) for s in new[:5]]
